@@ -100,10 +100,6 @@ pub fn decide(x: &[u8]) -> RefOut {
         if n < 12 {
             return RefOut::OutOfClaim("ctrl-req-short<12");
         }
-        if f.cmd >= 0x09 {
-            // C10 class D3: the library's request length table has unimplemented!() arms
-            return RefOut::OutOfClaim("ctrl-req-cmd>=0x09");
-        }
         let datalen = n - 1 - 11;
         let len_bad = matches!(req_fixed_len(f.cmd), Some(l) if l != datalen);
         if f.pec_ok && !len_bad {
@@ -129,10 +125,6 @@ pub fn decide(x: &[u8]) -> RefOut {
         }
         if resp_len_outside_claim(f.cmd) {
             return RefOut::OutOfClaim("ctrl-resp-cmd-02/08/09");
-        }
-        if f.cmd == 0x07 || f.cmd >= 0x0A {
-            // C10 class D5
-            return RefOut::OutOfClaim("ctrl-resp-cmd-07/>=0x0A");
         }
         let datalen = n - 1 - 12;
         let len_bad = matches!(resp_fixed_len(f.cmd), Some(l) if l != datalen);
